@@ -711,6 +711,7 @@ struct PointOpts
   bool code   = false; // code column (locator C)
   bool dup    = false; // two pairs of samples share their coordinates (singular kriging systems)
   double box  = 100.;
+  std::string xname = "x"; // prefix of the coordinate NAMES (roles are always x1..)
 };
 
 // point Db: rank, coordinates (X), [before-decor], variables (Z), F, V, C, decor, selection
@@ -727,7 +728,7 @@ static Db* makePoints(Rng& r, const PointOpts& o, const Prior& p, const std::str
       if (o.dup && o.n >= 6 && (i == 1 || i == o.n - 1)) xs[i][d] = xs[i - 1][d];
       tab.push_back(xs[i][d]);
     }
-    names.push_back("x" + std::to_string(d + 1));
+    names.push_back(o.xname + std::to_string(d + 1));
     locs.push_back("x" + std::to_string(d + 1));
   }
   Db* db = Db::createFromSamples(o.n, ELoadBy::COLUMN, tab, names, locs, true);
@@ -2037,6 +2038,8 @@ static void scenDGM(Rng& r, Ctx& c, Scen& s, const std::string& which)
   Prior pin;  pin.tag = "i_"; pin.ndecor = r.irange(1, 5); pin.avoid.push_back(ELoc::NOSTAT.getValue());
   Prior pout; pout.tag = "o_"; pout.ndecor = r.irange(1, 5);
   PointOpts po; po.ndim = ndim; po.n = r.irange(8, c.thorough() ? 50 : 22); po.nvar = 1;
+  // the coordinates of the data are not always called like those of the grid (roles are given back BY NAME after centring)
+  po.xname = (c.icase % 2) ? "x" : "east";
   s.din0.reset(makePoints(r, po, pin));
   GridOpts go; go.ndim = ndim; go.nx = gridShape(r, ndim, c.thorough() ? 80 : 30); go.nz = r.irange(0, 2); go.forceNostat = r.coin(0.15);
   s.dout0.reset(makeGrid(r, go, pout));
